@@ -176,6 +176,11 @@ def progress_or_raise(ctx, rep, rule):
     for st in ends:
         n += 1
         good = st.facts.get(MEMBERS) is False      # no member at all: vacuously all yielded
+        REM = T.mk(('rem', LENM))                  # the count-down form: remaining = len(members), one down per mark
+        for k, v in st.facts.items():
+            if k[0] == 'cmp' and k[2] == REM and k[3] == ('const', 0):
+                if (k[1] in ('==', '<=') and v) or (k[1] in ('!=', '>') and not v):
+                    good = True
         for k, v in st.facts.items():
             if k[0] == 'cmp' and LENM in (k[2], k[3]):
                 op = k[1]
@@ -193,7 +198,7 @@ def progress_or_raise(ctx, rep, rule):
     rep.check(bool(raises), rule, "%s raises when it cannot go on" % fn, fn, "no raise statement is reachable",
               "a cyclic graph is never reported")
     for e in an.events('AUG'):
-        if e.data['val'][0] in ('pos', 'acc') and not e.data.get('depth'):
+        if e.data['val'][0] in ('pos', 'acc', 'rem') and not e.data.get('depth'):
             # (the counter of the scan itself: a helper that counts something else is not concerned)
             rep.check(e.data['marked'] is not None, rule, "%s counter goes with marking" % e.where, fn,
                       "`%s` on a path where no job was marked in this step" % src(stmt_of(e.node)),
@@ -302,6 +307,15 @@ def check_cycles_rules(ctx, rep, rule):
             rep.fail(rule, "%s exception escapes" % ip.where(node), fn,
                      "the exception raised by the scan escapes check_cycles()",
                      "check_cycles() raises on a cyclic graph instead of returning False", trace(st))
+        # ... and False only because the scan failed (or a nested verdict was False): check_cycles() itself, and
+        # the helpers it runs, raise nothing of their own - a graph that is acyclic is never reported cyclic
+        for e in an.events('RAISE'):
+            if e.fr.func.name == 'topological_order' or isinstance(stmt_of(e.node), ast.Raise) and stmt_of(e.node).exc is None:
+                continue
+            rep.fail(rule, "%s False only when the scan failed" % e.where, fn,
+                     "`%s` in %s" % (src(stmt_of(e.node)), e.fr.func.qualname),
+                     "check_cycles() returns False (its handler catches this) on a graph whose ordering exists: an "
+                     "acyclic graph is reported cyclic", trace(e.st))
         caught = an.events('CAUGHT')
         rep.check(bool(caught), rule, "%s handles the scan's exception" % fn, fn,
                   "no handler catches the exception raised by the ordering generator",
@@ -742,6 +756,17 @@ def _str_literal(func, e):
     """the string an argument stands for: a literal, or a module-level name bound once to a string literal"""
     if isinstance(e, ast.Constant) and isinstance(e.value, str):
         return e.value
+    if isinstance(e, ast.Attribute) and isinstance(e.value, ast.Name) and e.value.id in ('self', 'cls') and func.cls is not None:
+        # a constant of the class (`_UPSTREAM = "required"` in the class body, never re-assigned)
+        for k in func.cls.mro:
+            defs = [n for n in k.node.body if isinstance(n, (ast.Assign, ast.AnnAssign)) and any(
+                isinstance(t, ast.Name) and t.id == e.attr for t in (n.targets if isinstance(n, ast.Assign) else [n.target]))]
+            if defs:
+                d = defs[-1]
+                if len(defs) == 1 and isinstance(d.value, ast.Constant) and isinstance(d.value.value, str):
+                    return d.value.value
+                return None
+        return None
     if isinstance(e, ast.Name) and e.id not in func.params:
         if any(isinstance(n, ast.Name) and n.id == e.id and isinstance(n.ctx, ast.Store) for n in ast.walk(func.node)):
             return None
@@ -1094,8 +1119,12 @@ class ClosureModel(GraphModel):
                 if named:
                     name = named[0][1]
         if name is not None:
+            # (what the path knows about the element being added - and about the element of the result it was
+            # reached from: a pass that skips some elements of the result is not a closure)
+            elems = [c.elem for c in ip.loopctx if c.kind == 'for' and c.elem is not None]
             conds = tuple(sorted(((k, v) for k, v in st.facts.items()
-                                  if T.contains(k, args[0]) and not any(k == c.iter for c in ip.loopctx)), key=repr))
+                                  if (T.contains(k, args[0]) or any(T.contains(k, el) for el in elems))
+                                  and not any(k == c.iter for c in ip.loopctx)), key=repr))
             self.ev(ip, 'LADD', node, st, fr, name=name, arg=args[0], conds=conds,
                     coll=st.var(fr.fid, f.value.id))
             st = st.set(added=True)
@@ -1278,6 +1307,25 @@ def _traversal(ctx, rep, rule):
             f_ = p.effective_supplier(c, hook)
             if f_ is not None and not any(f_ is g for _c, g in impls):
                 impls.append((f_.cls, f_))
+    def returned_generator(f):
+        """a hook that is not a generator itself but returns the generator another method of the class makes, its own
+        parameters handed over unchanged (`return PureScheduler.iterate_jobs(self, scan_schedulers=scan_schedulers)`)"""
+        from ..effects import callees_by_name
+        if f.is_generator:
+            return None
+        rets = [n for n in walk_local(f.node) if isinstance(n, ast.Return)]
+        if len(rets) != 1 or not isinstance(rets[0].value, ast.Call):
+            return None
+        c = rets[0].value
+        args = [a.id if isinstance(a, ast.Name) else None for a in c.args] + \
+            [k.value.id if isinstance(k.value, ast.Name) else None for k in c.keywords]
+        if None in args or sorted(a for a in args if a != 'self') != sorted(x for x in f.params if x != 'self'):
+            return None
+        cs = [g for g in callees_by_name(p, f, c) if g.is_generator]
+        return cs[0] if len(cs) == 1 else None
+    impls = [(cls, returned_generator(f) or f) for cls, f in impls]
+    seen_f = []
+    impls = [(c_, f_) for c_, f_ in impls if not (f_ in seen_f or seen_f.append(f_))]
     for cls, f in impls:
         an, ip, out = ctx.explore(f, model=GraphModel)
         ys = an.events('YIELD')
